@@ -314,9 +314,21 @@ pub fn seq_phases(prop: &str, tier: &str) -> Vec<Phase> {
                     cfgs.push(Cfg::records(3).with_cache(items, cap));
                 }
             }
-            let mut s = spec(prop, Alpha::Core, if thorough { 6 } else { 4 }, cfgs, o, if thorough { 1500 } else { 45 });
+            let mut s = spec(prop, Alpha::Core, if thorough { 6 } else { 4 }, cfgs.clone(), o.clone(), if thorough { 1500 } else { 45 });
             s.max_refused = 1;
-            vec![Phase { name: "core alphabet + refused calls under every cache limit (eager worker)", spec: s }]
+            // start states in which log-id order and index order of the resident
+            // entries and the boundary differ (re-appends after truncations, with a
+            // flush in between so that the boundary has advanced)
+            let mut r = spec(prop, Alpha::Core, if thorough { 3 } else { 2 }, cfgs, o, if thorough { 900 } else { 30 });
+            r.roots = vec![
+                vec!["append", "append_t+2", "flush", "truncate_last", "append_t+1"],
+                vec!["append", "append", "append", "flush", "truncate_last", "truncate_last", "append_t+1"],
+                vec!["append", "append_t+2", "append", "flush", "truncate_last", "truncate_last", "append_t+1", "append"],
+            ];
+            vec![
+                Phase { name: "core alphabet + refused calls under every cache limit (eager worker)", spec: s },
+                Phase { name: "from start states with re-appended entries and an advanced boundary", spec: r },
+            ]
         }
         "C16" => {
             let o = Oracles {
